@@ -1,6 +1,7 @@
 //! Harness entry: `verif <ID> --tier quick|thorough`, `verif replay <file>`, `verif selfcheck`.
 
 pub mod boardprops;
+pub mod cachekeys;
 pub mod cutprops;
 pub mod determ;
 pub mod eng;
